@@ -302,6 +302,8 @@ def search_loop_p_vc():
             lt, width, lp, y, lens = a
             st, tt, pw = cur["st"], cur["t"], cur["pw"]
             LS = [x for x in I2.ex.ghost.get("log_softmaxes", [])]
+            if len(LS) != 1:
+                raise ip.Unsupported("the step does not normalise the model's scores with exactly one log_softmax")
             I2.ex.oblige("structure.one_log_softmax_per_step", z3.BoolVal(len(LS) == 1 and LS[-1]["dim"] == 2))
             lsf = LS[-1]["LS"]
             cur["ls"] = lsf
